@@ -212,6 +212,17 @@ def r_retrieve_tree(repo, rep, R, what):
     kinds = {}
     for st, out in rt.paths:
         kinds.setdefault(rt.classify(st), []).append((st, out))
+    # a terminal is rebuilt only for an item without children: the leaf path is taken only where the left child is known to be absent
+    # (`left == NULL or right == NULL` sends every unary item there: the unary step disappears and its words collapse into one leaf)
+    for st_, out_ in kinds.get('leaf', []):
+        no_left = any(pol and c[0] == 'cmp' and c[1] in ('==', 'is') and A(item, 'left') in (c[2], c[3]) and (N('NULL') in (c[2], c[3]) or C(None) in (c[2], c[3]))
+                      for c, pol, _ in st_.conds) or any((not pol) and c == A(item, 'left') for c, pol, _ in st_.conds)
+        if not no_left:
+            from .core import StructuralViolation
+            raise StructuralViolation(R, '%s:%s retrieve_tree' % (REL, rt.fn.lineno), 'retrieve_tree:leaf:has-no-children',
+                                      'retrieve_tree rebuilds a terminal on a path where the item may have a left child (%s): a unary item is returned as a leaf with the '
+                                      'category of the unary result -- the tree shows a supertag the word was never given, and the leaves after it are paired with the wrong words'
+                                      % '; '.join('%s%s' % ('' if pol else 'not ', show(c)[:40]) for c, pol, _ in st_.conds))
     for k in ('fin', 'leaf', 'unary', 'binary'):
         if len(kinds.get(k, [])) == 0:
             raise AnalysisError('%s: retrieve_tree: no %s path found (kinds: %s)' % (REL, k, {a: len(b) for a, b in kinds.items()}))
